@@ -9,12 +9,13 @@ K = [
     "context::Context::sweep_one",
     "gc_ptr::GcPtr::drop_in_place",
     "gc_ptr::GcPtr::trace_value",
-    "<<context::Context as core::ops::Drop>::drop::DropAll as core::ops::Drop>::drop",
+    "<<context::Context as core::ops::drop::Drop>::drop::DropAll as core::ops::drop::Drop>::drop",
 ]
 K_DEALLOC = "gc_ptr::GcPtr::dealloc"
-CTX_DROP = "<context::Context as core::ops::Drop>::drop"
-BUILDER_DROP = "<gc::GcBuilder as core::ops::Drop>::drop"
-CALLBACK_TRAITS = ("core::ops::FnOnce::call_once", "core::ops::FnMut::call_mut", "core::ops::Fn::call")
+CTX_DROP = "<context::Context as core::ops::drop::Drop>::drop"
+BUILDER_DROP = "<gc::GcBuilder as core::ops::drop::Drop>::drop"
+CALLBACK_TRAITS = ("core::ops::function::FnOnce::call_once", "core::ops::function::FnMut::call_mut",
+                   "core::ops::function::Fn::call")
 
 
 def exclusive_arena_sig(prog, f):
@@ -81,7 +82,7 @@ def entry_points(prog):
         if f["kind"] not in ("Fn", "AssocFn"):
             continue
         if f.get("impl_trait"):
-            if f["impl_trait"] == "core::ops::Drop":
+            if f["impl_trait"] == "core::ops::drop::Drop":
                 # a Drop impl is an entry point when safe client code can drop a value of the type
                 # while a callback runs: public types that do not own the collector context.
                 self_adt = None
